@@ -1,10 +1,10 @@
 package verifsim
 
 import (
-	"runtime"
-	"strconv"
 	"fmt"
+	"runtime"
 	"sort"
+	"strconv"
 	"strings"
 	"sync"
 	"testing/synctest"
@@ -155,11 +155,11 @@ func schedsimExec(r *Run) {
 	baseRepo := w.Repo.Headers
 	var tasks []*schedTask
 	type readObs struct {
-		task   int
-		hash   string
-		state  string
-		valid  string
-		tipAt  string
+		task  int
+		hash  string
+		state string
+		valid string
+		tipAt string
 	}
 	var obs []readObs
 	var obsMu sync.Mutex
@@ -235,8 +235,22 @@ func schedsimExec(r *Run) {
 	r.Cfg["overlapping_adds"] = overlap
 	last := -1
 	var schedule []string
+	// C03 under concurrency: whatever the callers do to each other, a stored row keeps every field except its
+	// label and never disappears (checked at every quiescent point, i.e. after every single repository call)
+	frozen := map[string]Row{}
+	checkFrozen := func() {
+		for hs, row := range w.Snapshot() {
+			row.State = ""
+			if old, ok := frozen[hs]; !ok {
+				frozen[hs] = row
+			} else if old != row {
+				r.Fail("C03", "row-changed-under-concurrency", fmt.Sprintf("overlap=%v", overlap), "stored header %s changed after it was stored: was %+v, is %+v (schedule %v)", hs[:8], old, row, schedule)
+			}
+		}
+	}
 	for step := 0; step < 2000; step++ {
 		synctest.Wait()
+		checkFrozen()
 		var ready []*schedTask
 		s.mu.Lock()
 		alive := 0
